@@ -61,7 +61,8 @@ let h_sim args = match args with
   | p :: prog :: impl :: _ ->
     let p = dec_proc p and prog = dec_list dec_instr prog in
     [L [A "model"; enc_outcome (simulate_default p prog)];
-     L [A "wf"; enc_bool (wf_procb p)];
+     L [A "wf"; enc_bool (wf_domainb p && wf_progb prog)];
+     L [A "sinkfirst"; enc_bool (wf_procb p)];
      sim_checks p prog (dec_outcome impl)]
   | _ -> bad "sim args"
 
@@ -260,7 +261,7 @@ let h_pipeline args = match args with
                      | Some rows ->
                        L ([A "ok"; enc_cstr (print_table rows); enc_proc p; enc_list enc_instr hw; enc_diag dg]
                           @ (match rest with
-                             | parsed :: _ -> [enc_bool (wf_procb p); sim_checks p hw (dec_outcome parsed)]
+                             | parsed :: _ -> [enc_bool (wf_domainb p); sim_checks p hw (dec_outcome parsed)]
                              | [] -> []))
                      | None -> L [A "err"; L [A "RowError"]])
                   | o -> L [A "err"; enc_outcome o])))) in
